@@ -80,6 +80,31 @@ def timeRatio (u1 : UnitT) (dt1 : Option Rat) (u2 : UnitT) (dt2 : Option Rat) : 
     | .error e => .error e
     | .ok u => .ok (d * u)
 
+/-- Python's `round` of an exact value: nearest integer, ties to even -/
+def roundHalfEven (q : Rat) : Int :=
+  let f := q.floor
+  let r := q - (f : Rat)
+  if r < 1/2 then f else if 1/2 < r then f + 1 else (if f % 2 = 0 then f else f + 1)
+
+/-- `time_ratio(..., as_int=True)`: `int(round(factor))` -/
+def timeRatioInt (u1 : UnitT) (dt1 : Option Rat) (u2 : UnitT) (dt2 : Option Rat) : Except Err Int :=
+  match timeRatio u1 dt1 u2 dt2 with
+  | .error e => .error e
+  | .ok f => .ok (roundHalfEven f)
+
+/-- one `time_ratio` request and its answer (exact factor or rounded integer).  The function has no state:
+    the answer to a request cannot depend on earlier requests (`Props/C06: C06_ratio_requests_independent`). -/
+structure RatioReq where
+  u1 : UnitT
+  dt1 : Option Rat
+  u2 : UnitT
+  dt2 : Option Rat
+  asInt : Bool
+
+def answerRatio (r : RatioReq) : Except Err Rat :=
+  if r.asInt then (match timeRatioInt r.u1 r.dt1 r.u2 r.dt2 with | .ok i => .ok (i : Rat) | .error e => .error e)
+  else timeRatio r.u1 r.dt1 r.u2 r.dt2
+
 /-! ### Numeric carrier -/
 
 structure NumOps (α : Type) where
@@ -91,6 +116,8 @@ structure NumOps (α : Type) where
   neg : α → α
   exp : α → α
   log : α → α
+  /-- general power `a ** b` (real exponent) -/
+  powr : α → α → α
   beq : α → α → Bool
   le : α → α → Bool
   lt : α → α → Bool
@@ -112,7 +139,7 @@ end NumOps
     (`Lemmas/TimePar.lean: convScalar_algebraic_indep`), and the driver refuses the probability kinds in this mode. -/
 def ratOps : NumOps Rat :=
   { ofRat := id, add := (· + ·), sub := (· - ·), mul := (· * ·), div := (· / ·), neg := (- ·),
-    exp := fun _ => 0, log := fun _ => 0,
+    exp := fun _ => 0, log := fun _ => 0, powr := fun _ _ => 0,
     beq := fun a b => decide (a = b), le := fun a b => decide (a ≤ b), lt := fun a b => decide (a < b) }
 
 /-- `Rat → Float`.  Exact whenever the rational is a double (every Python float is: numerator < 2^53 after
@@ -126,7 +153,7 @@ def ratToFloat (q : Rat) : Float :=
 /-- IEEE doubles with the C library's `exp`/`log`. -/
 def floatOps : NumOps Float :=
   { ofRat := ratToFloat, add := (· + ·), sub := (· - ·), mul := (· * ·), div := (· / ·), neg := (- ·),
-    exp := Float.exp, log := Float.log,
+    exp := Float.exp, log := Float.log, powr := Float.pow,
     beq := fun a b => a == b, le := fun a b => decide (a ≤ b), lt := fun a b => decide (a < b) }
 
 /-! ### Values -/
@@ -158,7 +185,8 @@ def convScalar {α : Type} (o : NumOps α) (k : Kind) (f v : α) : Except Err α
       if o.beq v o.zero then .ok o.zero
       else if o.beq v o.one then .ok o.one
       else if o.le o.zero v && o.le v o.one then
-        (if o.beq f o.zero then .error .zeroDiv else .ok (o.tpFormula v f))
+        -- factor 0 (self_dt = 0): NumPy's `-rate/0.0 = -inf`, `exp(-inf) = 0`: the event is certain
+        (if o.beq f o.zero then .ok o.one else .ok (o.tpFormula v f))
       else .error .value
   | .rateProb =>
       if o.beq v o.zero then .ok o.zero
@@ -315,6 +343,15 @@ def addC {α : Type} (o : NumOps α) (t : TP α) (c : α) := onValues t (fun x =
 def subC {α : Type} (o : NumOps α) (t : TP α) (c : α) := onValues t (fun x => o.sub x c)
 def rsubC {α : Type} (o : NumOps α) (t : TP α) (c : α) := onValues t (fun x => o.sub c x)
 def powN {α : Type} (o : NumOps α) (t : TP α) (n : Nat) := onValues t (fun x => o.pow x n)
+
+/-- `__pow__` / `__rpow__` with an arbitrary (real) exponent / base -/
+def powC {α : Type} (o : NumOps α) (t : TP α) (c : α) := onValues t (fun x => o.powr x c)
+def rpowC {α : Type} (o : NumOps α) (t : TP α) (c : α) := onValues t (fun x => o.powr c x)
+
+/-- `Dist.postprocess_timepar`: the variates of a distribution whose parameter was wrapped in a TimePar
+    (`ss.dur(ss.normal(...))`, `ss.normal(loc=ss.dur(...))`) replace `v` and are converted like any array value -/
+def scaleDraws {α : Type} (o : NumOps α) (t : TP α) (draws : List α) : TP α × Res :=
+  updateCached o { t with v := .array draws } true true
 
 def Val.any {α : Type} (p : α → Bool) : Val α → Bool
   | .scalar a => p a
